@@ -190,16 +190,22 @@ def extra_cases(rs, tier):
 
     for r in ROUTINES:
         und = r in rc.UND
-        if r in rc.CONN:
-            # (a) connected / strongly connected networks WITH SELF-LOOPS (nonzero diagonal cells)
-            for _ in range(reps * 2):
+        if True:
+            # (a) connected / strongly connected networks WITH SELF-LOOPS (nonzero diagonal cells): all seven routines
+            for _ in range(reps * (2 if r in rc.CONN else 1)):
                 n = int(rs.randint(4, 8 if not big else 11))
                 A = base(n, und)
                 for v in rs.choice(n, int(rs.randint(1, n)), replace=False):
                     A[v, v] = int(rs.randint(1, 10))
                 if not rc.two_disjoint_edges(A - np.diag(np.diag(A)), und):
                     continue
-                cases.append({'routine': r, 'A': A.tolist(), 'itr': int(rs.choice([1, 2, 3])), 'seed': seed(), 'kind': 'self-loops'})
+                c = {'routine': r, 'A': A.tolist(), 'itr': int(rs.choice([1, 2, 3])), 'seed': seed(), 'kind': 'self-loops'}
+                if r == 'partial_und':
+                    c['B'] = rand_graph(rs, n, float(rs.choice([0, .1, .3])), bool(rs.rand() < .5)).tolist()
+                if r in rc.LAT and rs.rand() < .3:
+                    D = rs.randint(0, 7, size=(n, n)).astype(float)
+                    c['D'] = (sym(D) if und else D).tolist(); c['Dkind'] = 'random'
+                cases.append(c)
         if r in ('latmio_und', 'latmio_und_connected'):
             # (b) caller-supplied ASYMMETRIC integer D for the undirected latticisers
             for _ in range(reps * 2):
@@ -214,6 +220,38 @@ def extra_cases(rs, tier):
                     continue
                 cases.append({'routine': r, 'A': A.tolist(), 'itr': int(rs.choice([1, 2, 3])), 'seed': seed(), 'D': D.tolist(),
                               'Dkind': 'asymmetric', 'kind': 'asym-D'})
+    # (c) connected inputs WITHOUT two vertex-disjoint edges (stars, the 3-node path, the triangle): nothing can be rewired and the
+    #     `while True` loop that draws two edges on four distinct nodes never ends. Short watchdog, no retry.
+    for r in ROUTINES:
+        und = r in rc.UND
+        for _ in range(4 if not big else 12):
+            shape = str(rs.choice(['star', 'star', 'path3', 'K3']))
+            if shape == 'star':
+                n = int(rs.randint(4, 8)); A = np.zeros((n, n)); h = int(rs.randint(n))
+                for v in range(n):
+                    if v != h:
+                        A[h, v] = A[v, h] = 1          # directed: both arcs, so the star is strongly connected
+            elif shape == 'path3':
+                A = np.zeros((3, 3)); A[0, 1] = A[1, 0] = A[1, 2] = A[2, 1] = 1
+            else:
+                A = np.ones((3, 3)) - np.eye(3)
+                if not und and rs.rand() < .5:
+                    A = ring(3, False)                 # directed triangle
+            p = rs.permutation(len(A)); A = A[np.ix_(p, p)]
+            A = weights(rs, A, und, int(rs.choice([1, 9])))
+            c = {'routine': r, 'A': A.tolist(), 'itr': int(rs.choice([1, 2])), 'seed': seed(), 'kind': 'no-pair:' + shape, 't': 1.0, 'no_retry': True}
+            if r == 'partial_und':
+                c['B'] = np.zeros_like(A).tolist()
+            cases.append(c)
+    # (d) storage axis: the same integer-valued matrices as bool / uint8 / int32 / int64 / float32 arrays, Fortran order, transposed views
+    for c in cases:
+        if c.get('malformed') or c.get('no_retry'):
+            continue
+        u = rs.rand()
+        if u < .3:
+            c['dtype'] = rc.pick_dtype(rs, np.array(c['A']))
+        elif u < .42:
+            c['order'] = str(rs.choice(['F', 'T']))
     return cases
 
 
@@ -231,10 +269,10 @@ def evaluate(c, r):
         cout = reaches_all(R, True)      # all-pairs: also meaningful should an undirected routine return an asymmetric matrix
         if cin and not cout:
             F.append(('connected-out', {}))
-        if und and not is_sym(R):
-            F.append(('symmetric-out', {}))
         if cin != r['extra'].get('in_conn') or cout != r['extra'].get('out_conn'):
             F.append(('oracle-disagreement', {'bfs': [cin, cout], 'closure': [r['extra'].get('in_conn'), r['extra'].get('out_conn')]}))
+    if und and is_sym(A) and not is_sym(R):
+        F.append(('symmetric-out', {}))
     if rt in rc.LAT:
         n = len(A); ind = r['ind']
         D = c['D'] if c.get('D') is not None else rc.default_D(n).tolist()
@@ -264,19 +302,41 @@ def has_asym_D(c):
     return bool(c['routine'] in rc.LAT and c['routine'] in rc.UND and D is not None and not is_sym(D))
 
 
+def has_pickable_pair(c):
+    """does the routine's own edge list (np.where(R) / np.where(np.tril(R)) / np.where(np.triu(A, 1)), diagonal cells included where the
+    routine lists them) hold two entries that pass its test `a != c and a != d and b != c and b != d`?"""
+    A = c['A']; n = len(A); r = c['routine']
+    if r == 'partial_und':
+        E = [(i, j) for i in range(n) for j in range(i + 1, n) if A[i][j] != 0]
+    elif r in rc.UND:
+        E = [(i, j) for i in range(n) for j in range(i + 1) if A[i][j] != 0]
+    else:
+        E = [(i, j) for i in range(n) for j in range(n) if A[i][j] != 0]
+    return any(a != c_ and a != d and b != c_ and b != d for x, (a, b) in enumerate(E) for y, (c_, d) in enumerate(E) if x != y)
+
+
+def never_stuck(c):
+    """randomize_graph_partial_und: an admissible swap exists now and after every sequence of swaps. Sufficient: one exists now and
+    the mask covers no cell of the network (either orientation) - then each swap can be undone by an admissible swap."""
+    A = np.array(c['A']); B = np.array(c['B'])
+    off = A - np.diag(np.diag(A))
+    return bool(rc.partial_swap_feasible(off, B) and not np.any((off != 0) & ((B != 0) | (B.T != 0))))
+
+
 def cond_of(c):
     """keys the open known findings are matched on: computed from the input itself, never from a generator tag"""
-    d = {'routine': c['routine'], 'self_loops': has_self_loops(c), 'asymmetric_D': has_asym_D(c)}
+    d = {'routine': c['routine'], 'self_loops': has_self_loops(c), 'asymmetric_D': has_asym_D(c), 'no_disjoint_edge_pair': not has_pickable_pair(c)}
     if c.get('malformed'):
         d['malformed'] = c['malformed']
     return d
 
 
 def run_case(c):
-    """rewire_common.run_case; for the budgeted routines (everything but partial_und, whose hangs are expected) a watchdog
-    hit is re-tried once with ten times the budget, so that a loaded machine cannot turn into a verdict"""
+    """rewire_common.run_case; a watchdog hit is re-tried once with ten times the budget, so that a loaded machine cannot turn into a
+    verdict - except where a hang is the expected behaviour: the no-pickable-pair family (known finding) and randomize_graph_partial_und
+    on inputs that can run out of admissible swaps"""
     r = rc.run_case(c)
-    if r['status'] == 'timeout' and c['routine'] != 'partial_und':
+    if r['status'] == 'timeout' and not c.get('no_retry') and (c['routine'] != 'partial_und' or (c.get('itr', 0) > 0 and never_stuck(c))):
         r = rc.run_case(dict(c, t=10 * c.get('t', 4.0)))
         r['retried'] = True
     return r
@@ -412,13 +472,17 @@ def main():
                        'itself: self_loops=true / asymmetric_D=true); Props/C11 *_selfloop_witness / *_asymD_witness show on the model that the '
                        'hypotheses cannot be dropped; the same predicates on inputs without self-loops / with symmetric D remain plain violations',
                        'masks are arbitrary 0/1 matrices (symmetric, asymmetric, one-sided); no symmetry assumption on the mask',
-                       'inputs have two vertex-disjoint edges; integer weights',
+                       'integer weights, stored as float64 / float32 / int64 / int32 / uint8 / bool, C or Fortran order or transposed view',
+                       'inputs without two vertex-disjoint edges (stars, path3, K3) are inside the quantifier ("trees") and make every routine hang in its '
+                       'unbudgeted edge pick: generated with a 1 s watchdog and reported as the open known findings C11-no-disjoint-edge-pair-hangs-*; '
+                       'all other generated inputs hold two vertex-disjoint edges',
                        'connectivity clause is evaluated on connected (undirected) / strongly connected (directed) inputs only',
                        'rejection clause: Props/C11.precheck_rejects / precheck_ok are about Model/RewirePre.precheck (allclose -> equality on integer input, '
                        'number_of_components = the C16 model); the malformed stream and every well-formed call of the two undirected _connected routines go through '
                        'the driver Main/RewirePre and are compared with the real routines',
                        'partial_und: calls that hit the 1.5 s watchdog (its rejection loop cannot terminate when no swap is admissible) are counted as '
-                       'timeouts; every other routine is re-tried with ten times the budget and a second timeout is the violation does-not-return']
+                       'timeouts unless the input can never run out of admissible swaps (one exists and the mask covers no cell of the network): then, and for every other '
+                       'routine, the call is re-tried with ten times the budget and a second timeout is the violation does-not-return']
     ok = ck.lean_gate(['BctVerif.Props.C11'], extra_modules=['BctVerif.Model.Rewire', 'BctVerif.Model.RewirePre'])
     if ck.tier == 'thorough' and ok:
         ck.leanchecker(['BctVerif.Props.C11', 'BctVerif.Model.Rewire', 'BctVerif.Model.RewirePre'])
@@ -451,6 +515,8 @@ def main():
             ck.count('kind:' + c['kind'])
         if c.get('Dkind'):
             ck.count('D:' + c['Dkind'])
+        if c.get('dtype') or c.get('order'):
+            ck.count('storage:' + (c.get('dtype') or 'order-' + c['order']))
         if c.get('Bkind'):
             ck.count('mask:' + c['Bkind'])
         if c.get('malformed'):
@@ -470,13 +536,21 @@ def main():
                         'extra': r.get('extra')} if moved else None,
                 nontrivial_key=digest([rt, c['A'], c.get('itr'), c.get('D'), c.get('B'), r['draws']]) if moved else None)
         if r['status'] == 'timeout':
-            if rt != 'partial_und':      # budgeted loops always return; this one was already re-tried with 10x the budget
+            # the attempt budget bounds the rewiring attempts, but the inner `while True` edge pick is unbounded: it ends (with probability 1,
+            # in a few draws) iff the edge list holds two entries on four distinct nodes. A timeout is a verdict when it survived the 10x
+            # retry, and for the no-pickable-pair family (open known finding C11-no-disjoint-edge-pair-hangs-*).
+            if rt != 'partial_und' or c.get('no_retry') or r.get('retried'):
                 ck.violation(rt, 'does-not-return', {'case': c}, cond_of(c))
+            else:
+                ck.count('partial_und-timeout:may-run-out-of-admissible-swaps')
             continue
         if r.get('retried'):
             ck.count('returned-after-retry')
         if r['status'] == 'exc':
-            ck.violation(rt, 'raises', {'case': c, 'exception': r['exc']}, cond_of(c))
+            if exc_kind(r['exc']) == 'BCTParamError' and not has_pickable_pair(c):
+                ck.count('rejected:no-rewirable-pair')     # a clean rejection of an input on which nothing can be rewired (not the current behaviour)
+            else:
+                ck.violation(rt, 'raises', {'case': c, 'exception': r['exc']}, cond_of(c))
             continue
         if rt in rc.CONN:
             ck.count('conn-input:%s' % r['extra'].get('in_conn'))
